@@ -184,6 +184,25 @@ class T(Referenceable):
         return "some text that is not an int"
 
 
+class TI(Referenceable):
+    """declares RIC03b: the CALLEE checks the arguments against it"""
+
+    def remote_short(self, a):
+        return len(a)
+
+
+try:
+    from foolscap.schema import ByteStringConstraint as _BSC
+
+    class RIC03b(RemoteInterface):
+        def short(a=_BSC(10)):
+            return int
+except Exception:
+    RIC03b = RemoteInterfaceRegistry["RIC03b"]
+from zope.interface import implementer as _implementer
+TI = _implementer(RIC03b)(TI)
+
+
 try:
     class RIC03(RemoteInterface):
         def typed(a=int):
@@ -213,6 +232,7 @@ class Recorder:
         self.lookup = {}         # handle -> (reqID, event count at lookup, kind of unslicer)
         self.in_turn = None
         self.errors = []         # harness-level inconsistencies
+        self.foreigns = []       # harness callables handed to the eventual queue
         self.is_twoway = []      # per handle
         self.fire_types = []     # per handle: exception class of every errback (None for a callback)
         self.finish_why = None   # the Failure given to the finish() that disconnected the broker
@@ -243,6 +263,31 @@ class Recorder:
             self.trace[idx][1] = self.snap()
         if idx in self.open:
             self.open.remove(idx)
+
+    # -- other users of the process-wide eventual-send queue
+    def foreign(self, raises):
+        """a callable for eventually() / notifyOnDisconnect(): recorded as `Enqueue raises` when it is queued (by the wrapper
+        of broker.eventually) and as `Turn` when it runs; then it raises or not"""
+        rec = self
+        code = -4 if raises else -3
+
+        def cb(*a, **kw):
+            if not rec.evq or rec.evq[0] != code:
+                rec.errors.append("queued callable ran out of order: %r vs queue %r" % (code, rec.evq))
+            else:
+                rec.evq.pop(0)
+            idx = rec.begin(("Turn", None))
+            rec.end(idx)
+            cb.ran += 1
+            if raises:
+                raise RuntimeError("a callable in the eventual-send queue raises")
+        cb._c03_foreign = raises
+        cb.ran = 0
+        self.foreigns.append(cb)
+        return cb
+
+    def enqueue(self, raises):
+        broker_mod.eventually(self.foreign(raises))
 
     # -- issuing calls
     def issue(self, twoway, thunk):
@@ -396,6 +441,13 @@ def recording(A):
                 finally:
                     rec.in_turn = None
             return o_eventually(run, *a, **kw)
+        if hasattr(cb, "_c03_foreign"):
+            idx = rec.begin(("Enqueue", bool(cb._c03_foreign)))
+            rec.evq.append(-4 if cb._c03_foreign else -3)
+            try:
+                return o_eventually(cb, *a, **kw)
+            finally:
+                rec.end(idx)
         return o_eventually(cb, *a, **kw)
 
     def addRequest(req):
@@ -450,8 +502,9 @@ def recording(A):
 
 
 # ------------------------------------------------------------------ broker pair
-def make_pair():
-    E.reset_clock()
+def make_pair(reset=True):
+    if reset:
+        E.reset_clock()
     A = broker_mod.Broker(TubRef("callee"))
     B = broker_mod.Broker(TubRef("caller"))
     tA, tB = QT(), QT()
@@ -466,15 +519,34 @@ def make_pair():
     tr2 = B.getTrackerForMyReference(t2.processUniqueID(), t2)
     tr2.send()
     rr_typed = A.getTrackerForYourReference(tr2.clid, "RIC03").getRef()
+    t3 = TI()
+    tr3 = B.getTrackerForMyReference(t3.processUniqueID(), t3)
+    tr3.send()
+    rr.rr3 = A.getTrackerForYourReference(tr3.clid, None).getRef()      # no interface on the caller's side
     return A, B, tA, tB, t, t2, rr, rr_typed
 
 
 # kind -> (twoway, description); the thunk is built in `thunk_for`
 CALL_KINDS = ["ok", "boom", "late", "unsendable_arg", "badresult", "oneway", "big", "nomethod",
-              "local_reject", "result_violation", "stall", "oneway_unsendable", "typed_ok", "mixed_dict"]
+              "local_reject", "result_violation", "stall", "oneway_unsendable", "typed_ok", "mixed_dict",
+              "bytes_rejected", "float_rejected", "longint_rejected", "arg_rejected", "list_rejected"]
 
 
 def thunk_for(kind, rr, rr_typed, stalls):
+    # tokens that the receiver's constraint rejects (STRING / FLOAT / LONGINT bodies must then be skipped exactly)
+    if kind == "bytes_rejected":
+        from foolscap.schema import ByteStringConstraint
+        return True, lambda: rr.callRemote("ok", b"q" * 40, _resultConstraint=ByteStringConstraint(10))
+    if kind == "float_rejected":
+        return True, lambda: rr.callRemote("ok", 1.5, _resultConstraint=int)
+    if kind == "longint_rejected":
+        from foolscap.schema import IntegerConstraint
+        return True, lambda: rr.callRemote("ok", 2 ** 200, _resultConstraint=IntegerConstraint(maxBytes=4))
+    if kind == "list_rejected":
+        return True, lambda: rr.callRemote("ok", [b"a" * 30, b"b" * 30], _resultConstraint=int)
+    if kind == "arg_rejected":          # rejected by the CALLEE's schema while the call is being received
+        r3 = getattr(rr, "rr3", None) or rr
+        return True, lambda: r3.callRemote("short", a=b"y" * 40)
     if kind == "ok":
         return True, lambda: rr.callRemote("ok", [1, 2, 3])
     if kind == "boom":
@@ -515,7 +587,7 @@ LOSS_MODES = ["lost", "lost-A-only", "shutdown-then-lost", "shutdown-other-then-
 
 
 def scenario(calls, cutA, cutB, chunkA=7, chunkB=7, loss="lost", stall_release="after", after_calls=("ok", "oneway"),
-             reason=None):
+             reason=None, probe=None, bystanders=(), other=None):
     """A = caller, B = callee.  Issue `calls`, deliver at most cutA bytes A->B and cutB bytes B->A in the given
     chunk sizes (alternating), then lose the connection in mode `loss`; afterwards the callee's late Deferreds fire,
     stalled arguments are released / failed and `after_calls` are issued on the dead reference.
@@ -523,7 +595,24 @@ def scenario(calls, cutA, cutB, chunkA=7, chunkB=7, loss="lost", stall_release="
     A, B, tA, tB, t, t2, rr, rr_typed = make_pair()
     stalls = []
     twoway = []
+    # `other`: a second, independent connection X in the same process (same eventual queue) with calls outstanding and
+    # possibly a notifyOnDisconnect handler; it is lost in the same reactor turn as A, before or after it
+    X = None
+    if other:
+        XA, XB, xtA, xtB, xt, xt2, xrr, xrr_typed = make_pair(reset=False)
+        X = dict(A=XA, B=XB, watch=Watch(), cfg=other)
     with recording(A) as rec:
+        if X:
+            for k in other.get("calls", ("late", "ok")):
+                tw, th = thunk_for(k, xrr, xrr_typed, stalls)
+                d = th()
+                if tw:
+                    X["watch"].add(d)
+            if other.get("watcher"):
+                XA.notifyOnDisconnect(rec.foreign(other["watcher"] == "raise"))
+        for wkind in [b[1] for b in bystanders if b[0] == "watcher"]:
+            A.notifyOnDisconnect(rec.foreign(wkind == "raise"))
+
         def issue(kind):
             tw, th = thunk_for(kind, rr, rr_typed, stalls)
             rec.issue(tw, th)
@@ -541,31 +630,61 @@ def scenario(calls, cutA, cutB, chunkA=7, chunkB=7, loss="lost", stall_release="
                 if not s.d.called:
                     s.d.errback(failure.Failure(RuntimeError("slicer failed")))
             E.turn()
-        sentA = sentB = 0
-        progress = True
-        while progress:
-            progress = False
-            lim = min(cutA, len(tA.out))
-            if sentA < lim:
-                n = min(chunkA, lim - sentA)
-                B.dataReceived(bytes(tA.out[sentA:sentA + n]))
-                sentA += n
-                progress = True
-                E.turn()
-            lim = min(cutB, len(tB.out))
-            if sentB < lim:
-                n = min(chunkB, lim - sentB)
-                A.dataReceived(bytes(tB.out[sentB:sentB + n]))
-                sentB += n
-                progress = True
-                E.turn()
+        sent = [0, 0]
+        nch = [0, 0]
+
+        def size(spec, i):
+            # an int = fixed chunk size; a list = that schedule of sizes, then everything that is left in one piece
+            if isinstance(spec, (list, tuple)):
+                return spec[i] if i < len(spec) else 10 ** 9
+            return spec
+
+        def pump(cA, cB, specA, specB):
+            progress = True
+            while progress:
+                progress = False
+                lim = min(cA, len(tA.out))
+                if sent[0] < lim:
+                    n = max(1, min(size(specA, nch[0]), lim - sent[0]))
+                    nch[0] += 1
+                    B.dataReceived(bytes(tA.out[sent[0]:sent[0] + n]))
+                    sent[0] += n
+                    progress = True
+                    E.turn()
+                lim = min(cB, len(tB.out))
+                if sent[1] < lim:
+                    n = max(1, min(size(specB, nch[1]), lim - sent[1]))
+                    nch[1] += 1
+                    A.dataReceived(bytes(tB.out[sent[1]:sent[1] + n]))
+                    sent[1] += n
+                    progress = True
+                    E.turn()
+        pump(cutA, cutB, chunkA, chunkB)
+        sentA, sentB = sent
         totalA, totalB = len(tA.out), len(tB.out)
+        if probe and sentA == totalA and sentB == totalB:
+            # the connection is still up and everything was delivered: it must still be usable
+            for k in probe:
+                issue(k)
+            E.turn()
+            pump(10 ** 9, 10 ** 9, 10 ** 9, 10 ** 9)
+            sentA, sentB = sent
+        delivered_all = (sentA == len(tA.out) and sentB == len(tB.out))
+        # what every caller has seen while the connection is still up
+        pre_fires = [list(f) for f in rec.fires]
+        pre_types = [[getattr(x, "__name__", None) for x in ft] for ft in rec.fire_types]
         done = failure.Failure(ConnectionDone())
         # `why` is the reason of the event that ends the connection for the caller: any member of REASONS
         if reason is None:
             reason = {"lost-A-only": "ConnectionLost", "shutdown-then-lost": "ConnectionLost",
                       "shutdown-other-then-data": "RuntimeError"}.get(loss, "ConnectionDone")
         why = reason_failure(reason)
+        for when, kind in bystanders:
+            if when == "before-loss":
+                rec.enqueue(kind == "raise")
+        if X and other.get("order", "first") == "first":
+            X["A"].connectionLost(failure.Failure(ConnectionLost()))
+            X["B"].connectionLost(done)
         if loss == "lost":
             A.connectionLost(why)
             B.connectionLost(done)
@@ -602,6 +721,12 @@ def scenario(calls, cutA, cutB, chunkA=7, chunkB=7, loss="lost", stall_release="
             B.connectionLost(done)
         else:
             raise KeyError(loss)
+        if X and other.get("order", "first") != "first":
+            X["A"].connectionLost(failure.Failure(ConnectionLost()))
+            X["B"].connectionLost(done)
+        for when, kind in bystanders:
+            if when == "after-loss":
+                rec.enqueue(kind == "raise")
         E.turn()
         for d in t.pending + t2.pending:
             if not d.called:
@@ -620,7 +745,11 @@ def scenario(calls, cutA, cutB, chunkA=7, chunkB=7, loss="lost", stall_release="
         waiting = list(A.waitingForAnswers.keys())
     return dict(trace=rec.trace, fires=rec.fires, twoway=twoway, waiting=waiting, totalA=totalA, totalB=totalB,
                 errors=rec.errors, evq=list(rec.evq), raised=rec.raised, marksA=list(tA.marks), marksB=list(tB.marks),
-                fire_types=rec.fire_types, via_turn=list(rec.via_turn), finish_why=rec.finish_why)
+                fire_types=rec.fire_types, via_turn=list(rec.via_turn), finish_why=rec.finish_why,
+                pre_fires=pre_fires, pre_types=pre_types, delivered_all=delivered_all,
+                foreign_ran=[(bool(c._c03_foreign), c.ran) for c in rec.foreigns],
+                other_fires=[list(f) for f in X["watch"].fires] if X else [],
+                other_waiting=list(X["A"].waitingForAnswers.keys()) if X else [])
 
 
 RETURNS = ("ok", "big", "typed_ok", "mixed_dict")
@@ -648,7 +777,17 @@ def judge(r):
     if r["waiting"]:
         return "table-not-empty", "waitingForAnswers still holds %r after connection loss and quiescence" % (r["waiting"],)
     if r["evq"]:
-        return "queued-fail-never-ran", "queued req.fail never ran: %r" % (r["evq"],)
+        return "queued-fail-never-ran", "entries of the eventual-send queue never ran (handles; -3/-4 = other callables): %r" % (r["evq"],)
+    for i, f in enumerate(r.get("other_fires", [])):
+        if len(f) != 1:
+            return ("other-connection-never-fired" if not f else "fired-twice",
+                    "callRemote #%d on a second connection that was lost in the same turn fired %d times" % (i, len(f)))
+    if r.get("other_waiting"):
+        return "table-not-empty", "the second connection's waitingForAnswers still holds %r" % (r["other_waiting"],)
+    for raises, ran in r.get("foreign_ran", []):
+        if ran != 1:
+            return "eventual-callable-not-run-once", "a %s callable handed to eventually()/notifyOnDisconnect ran %d times" % (
+                "raising" if raises else "well-behaved", ran)
     return judge_reason(r)
 
 
@@ -738,6 +877,8 @@ def api_sequence(ops):
                         reqs[0].fail(failure.Failure(exc))
                 except Exception:
                     pass
+            elif op[0] == "Enqueue":
+                rec.enqueue(bool(op[1]))
             elif op[0] == "Finish":
                 why = reason_failure(op[1])
                 if len(rec.trace) % 2:
@@ -779,7 +920,8 @@ class Watch:
         d.addCallbacks(lambda r: f.append(O_RESULT), lambda x: f.append(classify(x)))
 
 
-def tub_scenario(rng, event, nsteps, log_remote=False, mix=("ok", "boom", "late", "unsendable_arg", "oneway", "big", "late")):
+def tub_scenario(rng, event, nsteps, log_remote=False, mix=("ok", "boom", "late", "unsendable_arg", "oneway", "big", "late"),
+                 watchers=None):
     """two real Tubs, real negotiation; calls in both directions; after `nsteps` random delivery steps `event` happens.
     -> (problem or None, details)"""
     from harness.implenv import Net, make_tub, pems_sorted
@@ -805,6 +947,15 @@ def tub_scenario(rng, event, nsteps, log_remote=False, mix=("ok", "boom", "late"
     rrb, rra = got["a"], got["b"]        # A holds rrb (object of B), B holds rra
     w = Watch()
     stalls = []
+    ran = []
+    if watchers:
+        # application handlers for the loss of the connection, on both Tubs; "raise": they raise
+        def handler(tag):
+            ran.append(tag)
+            if watchers == "raise":
+                raise RuntimeError("notifyOnDisconnect handler raises")
+        rrb.notifyOnDisconnect(handler, "a")
+        rra.notifyOnDisconnect(handler, "b")
     for rr in (rrb, rra):
         for k in mix:
             tw, th = thunk_for(k, rr, rr, stalls)
@@ -885,12 +1036,13 @@ def tub_level(ctx):
         lr = (i // len(events)) % 2 == 1
         seed = ctx.rng.randint(0, 10 ** 9)
         import random
-        cfg = dict(event=ev_, nsteps=nsteps, logRemoteFailures=lr, seed=seed)
+        wt = [None, "raise", "ok"][(i // (2 * len(events))) % 3] if i >= 2 * len(events) else ("raise" if i < len(events) else None)
+        cfg = dict(event=ev_, nsteps=nsteps, logRemoteFailures=lr, seed=seed, watchers=wt)
         import gc
         gc.collect()        # safe point (see harness/c03.py run)
         try:
             with quiet():
-                bad, info = tub_scenario(random.Random(seed), ev_, nsteps, lr)
+                bad, info = tub_scenario(random.Random(seed), ev_, nsteps, lr, watchers=wt)
         except Exception as e:
             import traceback
             ctx.fail("oracle/tub-exception", "exception escaped in Tub-level scenario %r: %r" % (cfg, e),
@@ -903,6 +1055,7 @@ def tub_level(ctx):
             ctx.fail("oracle/tub-" + bad, "%s; Tub-level scenario %r" % (info, cfg), replay=dict(cfg=cfg))
         ctx.case(["tub", ev_, nsteps, lr, seed], nontrivial=bad is None and O_DEAD in info or ev_ == "none")
         ctx.hist("tub_event", ev_)
+        ctx.hist("tub_disconnect_handlers", wt)
         if bad is None:
             for c in info:
                 ctx.hist("tub_outcome", ONAME.get(c, c))
